@@ -49,6 +49,7 @@ def parseCliCmp (binary : Bool) (s : String) : Option (List (Nat × Option (Int 
     | none => none
     | some l =>
       match binary, l.splitOn "\t" with
+      | false, [d] => (d.toInt?).map fun d => (0, some (d, 0, 0), false)   -- --rf: the distance alone
       | true, [i, sm] => (i.toNat?).map fun i => (i, none, sm == "true")
       | false, [i, a, c, b] =>
         match i.toNat?, a.toInt?, c.toInt?, b.toInt? with
@@ -58,6 +59,42 @@ def parseCliCmp (binary : Bool) (s : String) : Option (List (Nat × Option (Int 
 
 /-- |a-b| within one rounding of b (one float64 division of exact operands) -/
 def approx (a b : Rat) : Bool := (if a ≥ b then a - b else b - a) * (4503599627370496 : Rat) ≤ (if b ≥ 0 then b else -b)
+
+/-- `1.234560E+01` (Go's %E) as a rational -/
+def parseSci (t : String) : Option Rat :=
+  match t.splitOn "E" with
+  | [m, e] =>
+    match parseDecimal m, (if e.startsWith "+" then (dropFirst e).toInt? else e.toInt?) with
+    | some m, some e =>
+      if e ≥ 0 then some (m * ((10 ^ e.toNat : Nat) : Rat)) else some (m / ((10 ^ (-e).toNat : Nat) : Rat))
+    | _, _ => none
+  | _ => none
+
+/-- `a` is `b` printed with seven significant digits -/
+def closeRel (a b : Rat) (relNum relDen : Nat) : Bool :=
+  let d := if a ≥ b then a - b else b - a
+  let m := if b ≥ 0 then b else -b
+  d * (relDen : Rat) ≤ m * (relNum : Rat) + (1 : Rat) / 1000000000000
+
+/-- the lines of `gotree compare trees --weighted`: `id wRF KF` (or `id identical` with --binary) -/
+def parseCliW (binary : Bool) (s : String) : Option (List (Nat × Option (Rat × Rat) × Bool)) :=
+  (splitTerm ";" s).mapM fun rec =>
+    match unescape rec with
+    | none => none
+    | some l =>
+      match binary, l.splitOn "\t" with
+      | true, [i, sm] => (i.toNat?).map fun i => (i, none, sm == "true")
+      | false, [i, a, b] =>
+        match i.toNat?, parseSci a, parseSci b with
+        | some i, some a, some b => some (i, some (a, b), false)
+        | _, _, _ => none
+      | _, _ => none
+
+def absR (q : Rat) : Rat := if q ≥ 0 then q else -q
+
+/-- a value printed on one line (the verdict protocol is line-based) -/
+def showL (f : Std.Format) : String :=
+  (toString f).map fun c => if c == '\n' || c == '\t' then ' ' else c
 
 def handle (op : String) (f : List String) : Verdict :=
   match op, f with
@@ -83,7 +120,7 @@ def handle (op : String) (f : List String) : Verdict :=
         tagIf (nbad > 0 ∧ badPos + 1 == n) "bad-last" ++
         tagIf (nbad > 0 ∧ 0 < badPos ∧ badPos + 1 < n) "bad-middle" ++
         tagIf ref.rooted "rooted-ref" ++ tagIf tips "tips" ++ tagIf binary "binary" ++
-        tagIf (took ≥ 2) "observed-2-workers" ++ tagIf cancelled "cancelled"
+        tagIf (took ≥ 2) "observed-2-workers" ++ tagIf cancelled "cancelled" ++ tagIf (flags.contains 'r') "rf"
       if !(runOK run) then
         ⟨.oracle, tags, runWhy run⟩
       else if cancelled then ⟨.pass, tags, ""⟩
@@ -103,7 +140,7 @@ def handle (op : String) (f : List String) : Verdict :=
         | some recs =>
           if !fin.closed || fin.panicked then ⟨.tie, tags, "model run does not end closed"⟩
           else if (sortRecs fin.out).map CmpRec.obs != (sortRecs recs).map CmpRec.obs then
-            ⟨.tie, tags, "model records " ++ toString (repr ((sortRecs fin.out).map CmpRec.obs))⟩
+            ⟨.tie, tags, "model records " ++ showL (repr ((sortRecs fin.out).map CmpRec.obs))⟩
           else ⟨.pass, "model-compare" :: tags, ""⟩
       else if kind == "weighted" then
         let fin := runToEnd shapeRecord (fun x : Nat × Item => weightedItem ref tips binary x.1 x.2) stops threads cap indexed sched
@@ -112,17 +149,38 @@ def handle (op : String) (f : List String) : Verdict :=
         | some recs =>
           if !fin.closed || fin.panicked then ⟨.tie, tags, "model run does not end closed"⟩
           else if (sortWRecs fin.out).map WRec.obs != (sortWRecs recs).map WRec.obs then
-            ⟨.tie, tags, "model records " ++ toString (repr ((sortWRecs fin.out).map WRec.obs))⟩
+            ⟨.tie, tags, "model records " ++ showL (repr ((sortWRecs fin.out).map WRec.obs))⟩
           else ⟨.pass, "model-weighted" :: tags, ""⟩
+      else if kind == "cliweighted" && outcome == "ok" then
+        -- the command's glue (comparetrees.go:108-126): wRF = Σ|common| + Σ specific lengths, KF = √(Σ squares)
+        let fin := runToEnd shapeRecord (fun x : Nat × Item => weightedItem ref tips binary x.1 x.2) stops threads cap indexed sched
+        match parseCliW binary records with
+        | none => bad "C11.pool cliweighted records"
+        | some recs =>
+          let model := sortWRecs fin.out
+          let agree := model.length == recs.length && (List.zip model recs).all fun (m, r) =>
+            m.id == r.1 &&
+            (match r.2.1 with
+             | none => m.same == r.2.2
+             | some (wrf, kf) =>
+               let mw := (m.common.map absR).sum + m.ref.sum + m.comp.sum
+               let mk2 := (m.common.map (fun x => x * x)).sum + (m.ref.map (fun x => x * x)).sum + (m.comp.map (fun x => x * x)).sum
+               closeRel wrf mw 1 1000000 && closeRel (kf * kf) mk2 3 1000000)
+          if !fin.closed || fin.panicked then ⟨.tie, tags, "model run does not end closed"⟩
+          else if !agree then ⟨.tie, tags, "model records " ++ showL (repr model)⟩
+          else ⟨.pass, "model-cliweighted" :: tags, ""⟩
       else if kind == "clicompare" && outcome == "ok" then
         let fin := runToEnd shapeRecord (fun x : Nat × Item => compareItem ref tips binary x.1 x.2) stops threads cap indexed sched
         match parseCliCmp binary records with
         | none => bad "C11.pool clicompare records"
         | some recs =>
+          let rf := flags.contains 'r' && !binary
           let model := (sortRecs fin.out).map fun r =>
-            if binary then (r.id, none, r.same) else (r.id, some (r.t1, r.t2, r.common), false)
+            if binary then (r.id, none, r.same)
+            else if rf then (0, some (r.t1 + r.t2, 0, 0), false)   -- in the order of the compared trees
+            else (r.id, some (r.t1, r.t2, r.common), false)
           if !fin.closed || fin.panicked then ⟨.tie, tags, "model run does not end closed"⟩
-          else if model != recs then ⟨.tie, tags, "model lines " ++ toString (repr model)⟩
+          else if model != recs then ⟨.tie, tags, "model lines " ++ showL (repr model)⟩
           else ⟨.pass, "model-clicompare" :: tags, ""⟩
       else if kind == "fbp" || kind == "clifbp" then
         -- the stopping pool: the model predicts exactly when the shared error cell is set, and the
@@ -143,7 +201,7 @@ def handle (op : String) (f : List String) : Verdict :=
                 | some q => approx x.1 q
                 | none => x.1 == x.2.2)
             if okAll then ⟨.pass, "model-fbp" :: tags, ""⟩
-            else ⟨.tie, tags, "model supports " ++ toString (repr model)⟩
+            else ⟨.tie, tags, "model supports " ++ showL (repr model)⟩
         else ⟨.pass, "model-stop" :: tags, ""⟩
       else
         let fin := runToEnd shapeRecord (fun x : Nat × Item => x.1) stops threads cap indexed sched
